@@ -109,21 +109,42 @@ fn kind_name(s: &Suggestion) -> &'static str {
 // ------------------------------------------------------------------------------------------
 // C13x: overlap removal on all small span lists + random lists + consequence (one-pass fixing)
 
-fn mk_lint(id: usize, s: usize, e: usize) -> Lint {
+/// Importance values of the lints of a list, by position: 0 = rising (as the rules come), 1 = falling, 2 = all equal, 3 / 4 = the
+/// values the rules really use (31, 63, 127) in orders where a more important lint follows less important ones on the same span.
+fn prio(pat: u8, id: usize) -> u8 {
+    match pat {
+        1 => 200 - (id % 200) as u8,
+        2 => 63,
+        3 => [63u8, 127, 31, 127, 31, 63][id % 6],
+        4 => [127u8, 63, 63, 31][id % 4],
+        _ => (id % 200) as u8,
+    }
+}
+
+fn mk_lint(id: usize, s: usize, e: usize, pat: u8) -> Lint {
     Lint {
         span: Span { start: s, end: e },
         lint_kind: LintKind::Miscellaneous,
         suggestions: vec![Suggestion::ReplaceWith(format!("<{id}>").chars().collect())],
         message: format!("lint #{id}"),
-        priority: (id % 200) as u8,
+        priority: prio(pat, id),
     }
 }
 
 fn check_list(ctx: &mut Ctx, spans: &[(usize, usize)], text_len: usize, fam: &str) {
+    check_list_p(ctx, spans, text_len, fam, 0);
+    // the same list once more with another order of importance
+    if spans.len() >= 2 {
+        let pat = 1 + ((spans.len() + spans[0].0 + spans[spans.len() - 1].1 + spans[1].0) % 4) as u8;
+        check_list_p(ctx, spans, text_len, fam, pat);
+    }
+}
+
+fn check_list_p(ctx: &mut Ctx, spans: &[(usize, usize)], text_len: usize, fam: &str, pat: u8) {
     ctx.report.evaluations += 1;
-    let input: Vec<Lint> = spans.iter().enumerate().map(|(i, (s, e))| mk_lint(i, *s, *e)).collect();
+    let input: Vec<Lint> = spans.iter().enumerate().map(|(i, (s, e))| mk_lint(i, *s, *e, pat)).collect();
     let mut out = input.clone();
-    let wit = || json!({"spans": spans});
+    let wit = || json!({"spans": spans, "priorities": (0..spans.len()).map(|i| prio(pat, i)).collect::<Vec<_>>()});
     match guarded(|| {
         remove_overlaps(&mut out);
         out
